@@ -76,7 +76,13 @@ pub enum Prior {
     /// re-use enabled, a different label sent, then an encap_ext call with the label of the case REFUSED (buffer ending
     /// inside the extension area), an encap call refused for its buffer (3 bytes) and one refused for its PDU length (65534 bytes): nothing of it went on the wire
     OtherThenRefused,
+    /// the label of the case sent, re-use switched off, another label sent, re-use switched on again: nothing that went
+    /// out while re-use was off may be referred to, and the label sent before is no longer the previous one
+    SameOffOtherOn,
 }
+
+/// PRIORS plus the states only some checks use
+pub const ALL_PRIORS: [Prior; 9] = [Prior::Fresh, Prior::Disabled, Prior::Same, Prior::SameAtMax, Prior::SameBelowMax, Prior::Other, Prior::SameThenDisabled, Prior::OtherThenRefused, Prior::SameOffOtherOn];
 
 pub const PRIORS: [Prior; 8] = [Prior::Fresh, Prior::Disabled, Prior::Same, Prior::SameAtMax, Prior::SameBelowMax, Prior::Other, Prior::SameThenDisabled, Prior::OtherThenRefused];
 
@@ -92,7 +98,7 @@ impl Prior {
         match self {
             Prior::Fresh | Prior::Disabled => None,
             Prior::Same | Prior::SameAtMax | Prior::SameBelowMax | Prior::SameThenDisabled => if l.is_addr() { Some(l) } else { None },
-            Prior::Other | Prior::OtherThenRefused => Some(other),
+            Prior::Other | Prior::OtherThenRefused | Prior::SameOffOtherOn => Some(other),
         }
     }
 }
@@ -138,6 +144,12 @@ pub fn build_prior<C: CrcCalculator>(crc: C, prior: Prior, l: Lbl) -> Encapsulat
         Prior::SameThenDisabled => {
             send(&mut e, l, &mut scratch);
             e.disable_re_use_label();
+        }
+        Prior::SameOffOtherOn => {
+            send(&mut e, l, &mut scratch);
+            e.disable_re_use_label();
+            send(&mut e, other, &mut scratch);
+            e.enable_re_use_label();
         }
     }
     e
